@@ -7,6 +7,7 @@ import r_interp
 import r_typaren
 import r_replace
 import r_keep
+import r_regex
 import r_layout
 
 EXPLANATION = (
@@ -31,4 +32,4 @@ def run(ctx):
             r_paren.rule_paren(ctx, "C01", parts=("oracle",), roles=("prefix",), all_kinds=True,
                                why="on a call / index prefix they are mandatory: `({..})[i]` becomes `{..}[i]`, "
                                    "`(function() end)()` becomes `function() end()`, which does not parse"),
-            r_keep.rule_getter_setter_fields(ctx, "C01"), r_layout.rule_comment_layout(ctx, "C01")]
+            r_keep.rule_getter_setter_fields(ctx, "C01"), r_layout.rule_comment_layout(ctx, "C01"), r_regex.rule_regex(ctx, "C01")]
